@@ -16,6 +16,17 @@ open Tables Spec
 theorem no_alloc_refs : externalRefs.all (fun r => !r.path.startsWith "alloc" && r.kind != "extern-crate") = true := by
   decide +kernel
 
+/-- **C14 (a').** No allocating item of the std prelude — `vec!`, `format!`, `Vec`, `Box`, `String`, `Rc`, `Arc`, `.to_vec()`,
+`.to_owned()`, `.to_string()` … (they are not spelled `std::` / `alloc::`, so they have their own row kind) — is compiled
+into a shipped build, with or without `std`: every such occurrence sits under `cfg(test)`. -/
+theorem no_prelude_alloc :
+    externalRefs.all (fun r => r.kind != "prelude-alloc" ||
+      (noStdBuilds ++ stdBuilds).all (fun b => !compiledIn b r)) = true := by
+  decide +kernel
+
+/-- non-vacuity: the table does contain such items (in the test code) -/
+example : externalRefs.any (fun r => r.kind == "prelude-alloc") = true := by decide +kernel
+
 /-- **C14 (b).** Every reference to `std` is compiled out of every build without the `std` feature
 (it sits under `cfg(feature = "std")` or `cfg(test)`), so a no_std build references nothing outside `core`. -/
 theorem std_refs_gated : externalRefs.all (fun r => noStdBuilds.all (fun b => !compiledIn b r)) = true := by
